@@ -201,7 +201,13 @@ def run(ctx):
                 n = next(iter(comp))
                 if not any(e["callee"] == n for e in cg.callees(n)):
                     continue
-            names = sorted({_method_name(cg.body_of.get(n, n)) for n in comp})
+            # a cycle is named after its public / trait-method members: private helpers on the cycle (which a maintainer may
+            # inline or extract at will) do not change the name a recorded finding is matched by
+            def _is_api(n):
+                f = cg.fn_of(n)
+                return f is None or f.vis == "pub" or bool(f.trait)
+            api = sorted({_method_name(cg.body_of.get(n, n)) for n in comp if _is_api(n)})
+            names = api or sorted({_method_name(cg.body_of.get(n, n)) for n in comp})
             rec.append((",".join(names), comp))
         ctx.floor("R11.4", "recursion cycles found in the region", len(rec), 4)
         for name, comp in sorted(rec, key=lambda x: x[0]):
